@@ -2087,7 +2087,6 @@ where
 {
     #[inline]
     fn go<M: Mode>(&self, inp: &mut InputRef<'src, '_, I, E>) -> PResult<M, C> {
-        // let before = inp.cursor();
         let mut output = M::bind(|| C::uninit());
         let mut iter_state = self.parser.make_iter::<M>(inp)?;
         for idx in 0..C::LEN {
@@ -2096,9 +2095,13 @@ where
                     M::combine_mut(&mut output, out, |c, out| C::write(c, idx, out));
                 }
                 Ok(None) => {
-                    // let span = inp.span_since(&before);
-                    // We don't add an alt here because we assume the inner parser will. Is this safe to assume?
-                    // inp.add_alt([ExpectedMoreElements(Some(C::LEN - idx))], None, span);
+                    // The iterator may have stopped without any parser failing (an upper bound below `C::LEN`), so
+                    // make sure that a failure always leaves an alt behind
+                    let before = inp.save();
+                    let found = inp.next_maybe_inner();
+                    let span = inp.span_since(before.cursor());
+                    inp.rewind(before);
+                    inp.add_alt([], found.map(|f| f.into()), span);
                     // SAFETY: We're guaranteed to have initialized up to `idx` values
                     M::map(output, |mut output| unsafe {
                         C::drop_before(&mut output, idx)
